@@ -35,9 +35,13 @@ def law_items(tier, seed):
     # L2 / L3
     for d in gen.s4(tier):
         b = d['block']
+        if b['op'] != 'repeat':
+            continue
         inner = b['block']
         merge = {'op': 'merge', 'blocks': [inner], 'constraints': b['constraints'], 'mode': 'repeat', 'alignment': 'equal preamble'}
         out.append({'law': 'L2', 'factors': d['factors'], 'sides': [b, merge], 'tier': tier})
+        if inner['op'] == 'multi' and not b['constraints']:
+            out.append({'law': 'L3', 'factors': d['factors'], 'sides': [b, {'op': 'merge', 'blocks': [inner], 'constraints': []}, inner], 'tier': tier})
     seen = set()
     for fs, inner in gen.inner_blocks(tier):
         k = core.canon(inner)
